@@ -323,12 +323,9 @@ func reference(c *Case) exp {
 		w := words(in.S)
 		n := int(p.I)
 		if len(w) <= n {
-			return exp{key: "shape", pred: func(out string) string {
-				if strings.Join(words(out), " ") != strings.Join(w, " ") {
-					return "words altered although nothing had to be cut"
-				}
-				return ""
-			}}
+			// Django 1.7 (Truncator.words): the text is split on whitespace and re-joined with single blanks also
+			// when nothing is cut
+			return exact(strings.Join(w, " "))
 		}
 		return exact(strings.Join(w[:n], " ") + " ...")
 	case "wordcount":
